@@ -240,6 +240,9 @@ def rule_B13(ctx):
                 obligations.append((c, "%s(%s, .., %s)" % (fn, P, key(args[2])[:20]), ("len", args[2])))
             elif fn == "snprintf" and args[0]["k"] == "ref" and args[0]["name"] == P:
                 obligations.append((c, "snprintf(%s, %s, ..)" % (P, key(args[1])[:20]), ("len", args[1])))
+            elif fn in ("read", "recv", "fread") and len(args) >= 3 and args[1]["k"] == "ref" and args[1]["name"] == P:
+                # read(fd, P, n) stores at most n bytes
+                obligations.append((c, "%s(.., %s, %s)" % (fn, P, key(args[2])[:20]), ("len", args[2])))
             elif fn in ("strlen", "strcmp", "strncmp", "strchr", "free") or (
                     args[0]["k"] != "ref" or args[0]["name"] != P) and fn in ("memcpy", "strcpy", "strcmp"):
                 continue
@@ -958,6 +961,9 @@ def rule_X7(ctx):
             end = linearize(strip_casts(e["args"][3]), subst)
             letter = {}
             for x in items:
+                if x[0] == "sw" and key(strip_casts(f.nodes[x[1]])) in ("%s[0]" % cmdp, "(*%s)" % cmdp):
+                    for v_ in x[3]:
+                        letter[chr(v_)] = (x[2] == v_)
                 if x[0] != "br":
                     continue
                 c = f.nodes[x[1]]
@@ -1067,6 +1073,13 @@ def rule_T6(ctx):
     from ..lin import feasible
     prog = ctx.prog
     f = prog.func("ec_substitute", file="ex.c")
+    if not any(True for _ in f.calls(("rstr_find", "rset_find"))):
+        # the per-line loop may live in a helper of the file
+        for c_ in f.calls():
+            h_ = prog.resolve(f, c_["fn"]) if c_.get("fn") else None
+            if h_ is not None and h_.file == f.file and h_ is not f and any(True for _ in h_.calls(("rstr_find", "rset_find"))):
+                f = h_
+                break
     offs = None
     for c in f.calls(("rstr_find", "rset_find")):
         a = strip_casts(c["args"][3])
